@@ -205,3 +205,127 @@ def pattern_term(text):
 
 def flags_term(fl):
     return "{| ignore_case := %s; multi_line := %s; dot_all := %s |}" % tuple(gal.boolean(b) for b in fl)
+
+
+# ---------------------------------------------------------------------------------------------------
+# A step-counting Python twin of Model/RegexEngine.v, used ONLY as a budget filter: the Gallina engine's fuel bounds
+# the depth of its recursion, not the total work, so a catastrophically backtracking pattern would make a Coq shard
+# run for minutes.  Cases whose twin needs more than the budget stay with the re oracle (counted in the evidence).
+# Nothing about correctness rests on this twin.
+# ---------------------------------------------------------------------------------------------------
+class TooSlow(Exception):
+    pass
+
+
+def engine_steps(tree, ngroups, fl, s, budget):
+    """Number of matcher steps of finditer on s (same algorithm as the Gallina [run]/[scan]/[find_all_go]); raises
+    TooSlow beyond the budget."""
+    import sys
+    ic, ml, da = fl
+    n = len(s)
+    cnt = [0]
+    if sys.getrecursionlimit() < 20000:
+        sys.setrecursionlimit(20000)
+
+    def fold(c):
+        return c + 32 if 65 <= c <= 90 else c
+
+    def ceq(c, x):
+        return fold(c) == fold(x) if ic else c == x
+
+    def run(k, pos, caps, ma, start):
+        # k: linked list (frame, rest) / None
+        cnt[0] += 1
+        if cnt[0] > budget:
+            raise TooSlow()
+        if k is None:
+            return None if (ma and pos == start) else (pos, caps)
+        fr, k1 = k
+        tag = fr[0]
+        if tag == "close":
+            c2 = list(caps)
+            if fr[1] >= 1 and fr[1] - 1 < len(c2):
+                c2[fr[1] - 1] = (fr[2], pos)
+            return run(k1, pos, tuple(c2), ma, start)
+        if tag == "until":
+            _, r, mn, mx, g, count, last = fr
+
+            def again(lastp):
+                return run((("re", r), (("until", r, mn, mx, g, count + 1, lastp), k1)), pos, caps, ma, start)
+            if count < mn:
+                return again(last)
+            more = (mx is None or count < mx) and (last is None or last != pos)
+            if g:
+                if more:
+                    res = again(pos)
+                    return res if res is not None else run(k1, pos, caps, ma, start)
+                return run(k1, pos, caps, ma, start)
+            res = run(k1, pos, caps, ma, start)
+            if res is not None:
+                return res
+            return again(pos) if more else None
+        t = fr[1]
+        kind = t[0]
+        if kind == "eps":
+            return run(k1, pos, caps, ma, start)
+        if kind in ("chr", "any", "cls"):
+            if pos >= n:
+                return None
+            x = ord(s[pos])
+            if kind == "chr":
+                ok = ceq(t[1], x)
+            elif kind == "any":
+                ok = da or x != 10
+            else:
+                ok = t[1] != any(ceq(c, x) for c in t[2])
+            return run(k1, pos + 1, caps, ma, start) if ok else None
+        if kind == "bol":
+            ok = pos == 0 or (ml and s[pos - 1] == "\n")
+            return run(k1, pos, caps, ma, start) if ok else None
+        if kind == "eol":
+            ok = pos == n or (s[pos] == "\n" and (ml or pos == n - 1))
+            return run(k1, pos, caps, ma, start) if ok else None
+        if kind == "seq":
+            return run((("re", t[1]), (("re", t[2]), k1)), pos, caps, ma, start)
+        if kind == "alt":
+            res = run((("re", t[1]), k1), pos, caps, ma, start)
+            return res if res is not None else run((("re", t[2]), k1), pos, caps, ma, start)
+        if kind == "rep":
+            return run((("until", t[1], t[2], t[3], t[4], 0, None), k1), pos, caps, ma, start)
+        if kind == "grp":
+            return run((("re", t[2]), (("close", t[1], pos), k1)), pos, caps, ma, start)
+        raise ValueError(t)
+
+    frm, ma = 0, False
+    for _ in range(2 * n + 3):
+        found = None
+        p = frm
+        m = ma
+        while p <= n:
+            r = run((("re", tree), None), p, (None,) * ngroups, m, p)
+            if r is not None:
+                found = (p, r[0])
+                break
+            p += 1
+            m = False
+        if found is None:
+            break
+        frm, ma = found[1], found[0] == found[1]
+    return cnt[0]
+
+
+_steps_cache = {}
+
+
+def within_budget(text, fl, s, budget=60000):
+    key = (text, tuple(fl), s)
+    v = _steps_cache.get(key)
+    if v is None:
+        tree, ng, _ = parse(text)
+        try:
+            engine_steps(tree, ng, tuple(fl), s, budget)
+            v = True
+        except (TooSlow, RecursionError):
+            v = False
+        _steps_cache[key] = v
+    return v
